@@ -203,17 +203,23 @@ Fixpoint unmarshal_t (vf : nat) (be : bool) (e : ety) (c : uctx) {struct vf} : o
                         end) es true c [];
              Ok (VStruct (fst r), snd r)
          | EVar x =>
-             (* Variant::unmarshal: read_signature, parse, unmarshal_with_sig (align, validate at depth+1, sub-context), get::<T> *)
+             (* Variant::unmarshal: read_signature; parse_description (error or len != 1 -> WrongSignature);
+                Variant::unmarshal_with_sig: align_to(sig.get_alignment()), then
+                UnmarshalContext::sub_context_for_value: enter_container (depth + 1, fails at 64),
+                validate_marshalled_at_depth at the cursor with the raised depth, sub_context(val_bytes) (advances the
+                cursor; the sub-context is split off WHILE the depth is raised, so it carries depth + 1),
+                leave_container on the outer context (also when validation failed; the error is returned either way);
+                then Variant::get::<T>(): sig != T::signature() -> WrongSignature, T::unmarshal on a copy of the sub-context *)
              do r <- u_read_sig c;
              match parse_description (fst r) with
              | Ok [t'] =>
                  do c1 <- u_align (align t') (snd r);
                  do c2 <- u_enter c1;
-                 do n <- validate 66 be (udepth c2) (uoff c1) (ubuf c1) t';
-                 do s <- u_sub n c1;
+                 do n <- validate 66 be (udepth c2) (uoff c2) (ubuf c2) t';
+                 do s <- u_sub n c2;
                  if ty_eqb t' (erase x) then
                    do v <- unmarshal_t vf' be x (fst s);
-                   Ok (VVariant t' (fst v), snd s)
+                   Ok (VVariant t' (fst v), u_leave (snd s))
                  else Err
              | _ => Err
              end
